@@ -68,6 +68,10 @@ func checkC08(P *core.Program, R *core.Report) {
 	}
 
 	checkDestroyIffZero(P, R)
+	checkModifiedPersistedX(P, R, modPersistSpec{Rule: "C08-pool-persisted", TypePkg: "x/leveragelp/types", TypeName: "Pool",
+		Store: "x/leveragelp/keeper.Keeper.SetPool", Subjects: subjects, Scratch: map[string]string{}})
+	checkModifiedPersistedX(P, R, modPersistSpec{Rule: "C08-position-persisted", TypePkg: "x/leveragelp/types", TypeName: "Position",
+		Store: "x/leveragelp/keeper.Keeper.SetPosition", Alt: []string{"x/leveragelp/keeper.Keeper.DestroyPosition"}, Subjects: subjects, Scratch: map[string]string{}})
 	checkOpenCounter(P, R, subjects)
 	checkRecordFreshness(P, R, freshSpec{
 		Rule: "C08-pool-fresh", Load: "x/leveragelp/keeper.Keeper.GetPool", Store: "x/leveragelp/keeper.Keeper.SetPool", Subjects: subjects,
